@@ -28,15 +28,19 @@ Qed.
 
 Theorem splice_detaches LF s tokens ref del_end p q s' r :
   1 <= LF -> Inv s -> ref_pos (abs s) ref p -> end_pos (abs s) del_end p q ->
-  valid_tokens (abs s) tokens p q ->
+  valid_tokens s tokens p q ->
   splice LF s tokens ref del_end = (s', r) ->
-  forall t, In t (firstn (q - p) (skipn p (abs s))) -> ~ In t tokens -> hnd s' t = None.
+  forall t, In t (firstn (q - p) (skipn p (abs s))) -> ~ In t tokens -> raw s' t = None.
 Proof.
   intros HLF II Hp Hq Hv H t Hr Hn.
-  destruct (splice_spec LF s tokens ref del_end p q s' r HLF II Hp Hq Hv H) as (_ & I' & Ea & _).
-  apply (detached s' t I'). rewrite Ea. apply removed_not_in; auto.
-  - destruct II as [I _]. apply (g_ndt _ _ I).
-  - destruct del_end; cbn in Hq; lia.
+  destruct (splice_spec LF s tokens ref del_end p q s' r HLF II Hp Hq Hv H) as (_ & _ & _ & _ & _ & _ & F2).
+  apply F2; assumption.
+Qed.
+
+Lemma foreign_not_in s t : Inv s -> foreign s t -> ~ In t (abs s).
+Proof.
+  intros [I _] Hf Hin. apply In_nth_error in Hin as [k Hk].
+  destruct (locate_inv s k t I Hk) as (_ & b & j & _ & _ & _ & Hh & _). rewrite (foreign_hnd s t Hf) in Hh. discriminate.
 Qed.
 
 (* ---------- whole histories: final state, reference list, reference texts ---------- *)
@@ -53,26 +57,26 @@ Proof.
   intro u. destruct o; cbn [ref_text]; try apply H. destruct (Pos.eqb u (P t0)); [reflexivity|apply H].
 Qed.
 
-Theorem run_ops_spec LF : 1 <= LF -> forall ops s, Inv s -> ops_valid (abs s) ops ->
+Theorem run_ops_spec LF : 1 <= LF -> forall ops s, Inv s -> pure s -> ops_valid (abs s) ops ->
   Inv (run_ops LF s ops) /\ abs (run_ops LF s ops) = ref_run (abs s) ops /\
   (forall t, txt (run_ops LF s ops) t = ref_texts (txt s) ops t).
 Proof.
-  intro HLF. induction ops as [|o r IH]; intros s II Hv; [cbn; auto|]. destruct Hv as [Hv Hr].
+  intro HLF. induction ops as [|o r IH]; intros s II Hp Hv; [cbn; auto|]. destruct Hv as [Hv Hr].
   destruct (step LF s o) as [s' rr] eqn:ES.
-  destruct (step_refines LF s o s' rr HLF II Hv ES) as (-> & I' & Ea & Ht).
+  destruct (step_refines LF s o s' rr HLF II Hp Hv ES) as (-> & I' & Ea & Ht & Hp').
   cbn [run_ops ref_run ref_texts]. rewrite ES. cbn [fst]. rewrite <- Ea.
-  destruct (IH s' I') as (I2 & E2 & T2); [rewrite Ea; exact Hr|].
+  destruct (IH s' I' Hp') as (I2 & E2 & T2); [rewrite Ea; exact Hr|].
   split; [exact I2|]. split; [exact E2|]. intro t. rewrite T2. apply ref_texts_ext. exact Ht.
 Qed.
 
 (* positions after any history, stated on the reference only *)
-Theorem history_positions LF ops s k t : 1 <= LF -> Inv s -> ops_valid (abs s) ops ->
+Theorem history_positions LF ops s k t : 1 <= LF -> Inv s -> pure s -> ops_valid (abs s) ops ->
   nth_error (ref_run (abs s) ops) k = Some t ->
   get_position (run_ops LF s ops) t =
     Ok (advance pos0 (concat (map (ref_texts (txt s) ops) (firstn k (ref_run (abs s) ops))))) /\
   get_index (run_ops LF s ops) t = Ok (Z.of_nat k).
 Proof.
-  intros HLF II Hv Hk. destruct (run_ops_spec LF HLF ops s II Hv) as ([I' _] & Ea & Ht).
+  intros HLF II Hp Hv Hk. destruct (run_ops_spec LF HLF ops s II Hp Hv) as ([I' _] & Ea & Ht).
   rewrite <- Ea in Hk. split.
   - rewrite (obs_position _ I' k t Hk). unfold prefix_text. rewrite Ea. do 3 f_equal. apply map_ext. exact Ht.
   - apply (obs_index _ I' k t Hk).
@@ -122,7 +126,7 @@ Definition ex_tk : tokmap :=
     (PositiveMap.add 5%positive (mktok [97; 10; 98] (token_size [97; 10; 98]) None)
        (PositiveMap.add 6%positive (mktok [99; 100] (token_size [99; 100]) None) (PositiveMap.empty tokrec))).
 Definition ex_ids : list positive := [1; 2; 3; 4; 5; 6; 7]%positive.
-Definition ex_s : store := fst (from_tokens 2 ex_tk ex_ids).
+Definition ex_s : store := fst (from_tokens 2 1%positive ex_tk ex_ids).
 
 Lemma ex_clean : clean ex_tk.
 Proof.
@@ -140,11 +144,15 @@ Qed.
 Lemma ex_ids_nodup : NoDup ex_ids.
 Proof. unfold ex_ids. repeat constructor; cbn; intuition discriminate. Qed.
 
-Lemma ex_inv : Inv ex_s /\ abs ex_s = ex_ids.
+Lemma ex_inv_pure : Inv ex_s /\ abs ex_s = ex_ids /\ pure ex_s.
 Proof.
-  destruct (from_tokens_spec 2 ex_tk ex_ids ex_s (snd (from_tokens 2 ex_tk ex_ids))) as (_ & I & E & _);
+  destruct (from_tokens_spec 2 1%positive ex_tk ex_ids ex_s (snd (from_tokens 2 1%positive ex_tk ex_ids))) as (_ & I & E & _ & _ & Pu);
     [lia|exact ex_clean|exact ex_ids_nodup|apply surjective_pairing|auto].
 Qed.
+Lemma ex_inv : Inv ex_s /\ abs ex_s = ex_ids.
+Proof. destruct ex_inv_pure as (I & E & _). auto. Qed.
+Lemma ex_pure : pure ex_s.
+Proof. apply ex_inv_pure. Qed.
 
 Lemma ex_blocks : length (s_blocks ex_s) = 4%nat.
 Proof. vm_compute. reflexivity. Qed.
@@ -160,24 +168,26 @@ Theorem observers_spec s : Inv s ->
   (forall k1 k2 a b, nth_error (abs s) k1 = Some a -> nth_error (abs s) k2 = Some b -> (k1 <= k2)%nat ->
      iter_range s a b = Ok (firstn (k2 + 1 - k1) (skipn k1 (abs s)))) /\
   (forall t, ~ In t (abs s) ->
-     get_index s t = Err ValueError /\ get_prev s t = Err ValueError /\ get_next s t = Err ValueError).
+     get_index s t = Err ValueError /\ get_prev s t = Err ValueError /\ get_next s t = Err ValueError /\
+     get_position s t = Err ValueError /\ (forall u, iter_range s t u = Err ValueError /\ iter_range s u t = Err ValueError)).
 Proof.
   intros II. pose proof II as [I L]. split; [reflexivity|]. split; [exact L|].
   split; [apply obs_first; exact I|]. split; [apply obs_last; exact I|].
   split; [intros k t H; split; [apply obs_index|split; [apply obs_prev|apply obs_next]]; assumption|].
   split; [intros; apply obs_range; assumption|].
-  intros t Hn. pose proof (detached s t II Hn) as Hd. unfold hnd in Hd.
-  unfold get_index, get_prev, get_next, check_handle. rewrite Hd. auto.
+  intros t Hn. pose proof (detached s t II Hn) as Hd.
+  unfold get_index, get_prev, get_next, get_position, iter_range. rewrite !check_handle_hnd, Hd.
+  do 4 (split; [reflexivity|]). intro u. split; [reflexivity|]. rewrite check_handle_hnd. destruct (hnd s u) as [[? ?]|]; reflexivity.
 Qed.
 
 (* ---------- satisfiable hypotheses on the concrete state ---------- *)
 Lemma ex_splice_args :
   ref_pos (abs ex_s) (Some 2%positive) 1 /\ end_pos (abs ex_s) (Some 6%positive) 1 6 /\
-  valid_tokens (abs ex_s) [8; 3]%positive 1 6.
+  valid_tokens ex_s [8; 3]%positive 1 6.
 Proof.
-  rewrite (proj2 ex_inv). unfold ex_ids. split; [reflexivity|]. split; [split; [lia|reflexivity]|].
+  unfold valid_tokens. rewrite (proj2 ex_inv). unfold ex_ids. split; [reflexivity|]. split; [split; [lia|reflexivity]|].
   split; [repeat constructor; cbn; intuition discriminate|].
-  intros t [<-|[<-|[]]]; [left; cbn; intuition discriminate|right; cbn; auto].
+  intros t [<-|[<-|[]]]; [left; vm_compute; reflexivity|right; cbn; auto].
 Qed.
 
 Definition ex_ops : list sop :=
@@ -187,7 +197,7 @@ Definition ex_ops : list sop :=
 Lemma ex_ops_valid : ops_valid (abs ex_s) ex_ops.
 Proof.
   rewrite (proj2 ex_inv). unfold ex_ids, ex_ops.
-  cbn -[Nat.lt Nat.le]. unfold valid_tokens.
+  cbn -[Nat.lt Nat.le]. unfold valid_list.
   repeat (match goal with
           | |- _ /\ _ => split
           | |- True => exact I
@@ -201,4 +211,25 @@ Proof.
           | |- (_ <= _)%nat => cbn; lia
           | |- _ \/ _ => first [left; reflexivity|right; cbn; intuition discriminate]
           end).
+Qed.
+
+(* ---------- value / indent setters of token models ----------
+   SingleValueRawTokenModel.value, BlockComment.value / .indent and the other token-model setters compute
+   the new raw text with their formatter and assign it through Token._update_raw_text (tie: an ast check in
+   the harness that every such setter goes through _update_raw_text).  With the formatter as a parameter: *)
+Definition setter {V : Type} (fmt : V -> str) (s : store) (t : positive) (v : V) : store * res unit :=
+  set_text s t (fmt v).
+
+Theorem setter_spec {V : Type} (fmt : V -> str) s t v s' r k : Inv s -> nth_error (abs s) k = Some t ->
+  setter fmt s t v = (s', r) ->
+  r = Ok tt /\ Inv s' /\ abs s' = abs s /\ txt s' t = fmt v /\ (forall u, u <> t -> txt s' u = txt s u) /\
+  printed s' = prefix_text s k ++ fmt v ++ concat (map (txt s) (skipn (S k) (abs s))) /\
+  (forall k' u, nth_error (abs s') k' = Some u ->
+     get_position s' u = Ok (advance pos0 (prefix_text s' k')) /\ get_index s' u = Ok (Z.of_nat k')).
+Proof.
+  intros II Hk H. unfold setter in H.
+  destruct (set_text_spec s t (fmt v) s' r II H) as (-> & I' & Ea & _ & Tt & To).
+  destruct (set_text_printed s t (fmt v) s' (Ok tt) k II Hk H) as [_ Hp].
+  split; [reflexivity|]. split; [exact I'|]. split; [exact Ea|]. split; [exact Tt|]. split; [exact To|]. split; [exact Hp|].
+  intros k' u Hu. destruct I' as [I0 _]. split; [apply obs_position|apply obs_index]; assumption.
 Qed.
